@@ -294,9 +294,8 @@ Arguments Ok {A} a.
 Arguments Err {A}.
 
 (* what the walker's environment provides: which names `_can_find_method_by_name` accepts (read from the
-   running library by the harness: specials, user_fun_map, impl_map, callable attributes of Value), and whether
-   comparison chains are rejected (true once the proposed fix is applied; false on the unchanged tree) *)
-Record cfg := mkcfg { known : list string; reject_chains : bool }.
+   running library by the harness: specials, user_fun_map, impl_map, callable attributes of Value) *)
+Record cfg := mkcfg { known : list string }.
 
 Definition op_remap : list (string * string) :=
   [("==", "__eq__"); ("!=", "__ne__"); ("<>", "__ne__"); ("<", "__lt__"); ("<=", "__le__"); (">", "__gt__");
@@ -570,7 +569,7 @@ Definition walk_node (c : cfg) (d : string) (cs : list ltree) (rs : list (res ex
   else if mem_str d ["arith_expr"; "term"; "comparison"] then
     let nc := List.length cs in
     if Nat.ltb nc 3 || Nat.even nc then Err
-    else if reject_chains c && (d ==s "comparison") && Nat.ltb 3 nc then Err     (* proposed fix only *)
+    else if (d ==s "comparison") && Nat.ltb 3 nc then Err       (* chained comparisons are not supported (1b8c7b2) *)
     else
       let ops := map tok_text (odds cs) in
       let kop :=
